@@ -88,6 +88,8 @@ def term_to_value(t: dict):
         return V.SubclassValue(term_to_value(t["t"]))
     if k == "typevar":
         return V.TypeVarValue(U.TYPEVARS[t["n"]])
+    if k == "typeddict":
+        return V.TypedDictValue({e["key"]: V.TypedDictEntry(term_to_value(e["t"]), required=bool(e["req"])) for e in t["items"]})
     if k == "union":
         if not t["ms"]:
             return V.NO_RETURN_VALUE
@@ -117,6 +119,10 @@ def value_to_term(v) -> dict:
         return {"k": "subclass", "t": value_to_term(v.typ)}
     if isinstance(v, V.NewTypeValue):
         return {"k": "newtype", "n": v.name, "c": U.CLASS_NAME.get(v.typ, "other")}
+    if isinstance(v, V.TypedDictValue):
+        if v.extra_keys is not None:
+            raise MachineryError("TypedDict with extra keys is outside the modelled algebra")
+        return {"k": "typeddict", "items": [{"key": k, "req": bool(e.required), "t": value_to_term(e.typ)} for k, e in v.items.items()]}
     if isinstance(v, V.SequenceValue):
         return {
             "k": "seq",
